@@ -70,8 +70,8 @@ impl Variable {
     fn debug(&self, depth: u8) -> String {
         match_any! { self,
             Self::Int(value)
-            | Self::Float(value)
-            | Self::String(value) => format!("{value:?}"),
+            | Self::Float(value) => format!("{value:?}"),
+            Self::String(value) => debug_string(value),
             _ => self.string(depth)
         }
     }
@@ -117,6 +117,29 @@ impl Variable {
             Type::Never => None,
         }
     }
+}
+
+/// Quoted and escaped like `{:?}`, except that NUL is written `\u{0}`: `\0` followed by a digit
+/// would be read back as an octal escape
+fn debug_string(value: &str) -> String {
+    let debug = format!("{value:?}");
+    let mut result = String::with_capacity(debug.len());
+    let mut chars = debug.chars();
+    while let Some(c) = chars.next() {
+        if c != '\\' {
+            result.push(c);
+            continue;
+        }
+        match chars.next() {
+            Some('0') => result.push_str("\\u{0}"),
+            Some(escaped) => {
+                result.push('\\');
+                result.push(escaped);
+            }
+            None => result.push('\\'),
+        }
+    }
+    result
 }
 
 impl Typed for Variable {
